@@ -83,6 +83,13 @@ def flag_for(policy, flip_state):
     return flip_state
 
 
+def deep_tier():
+    """True inside a thorough-tier run (set by the runner for its workers)."""
+    import os
+
+    return os.environ.get("EGSIM_TIER") == "thorough"
+
+
 def std_struct_config(rng, *, kinds, always=(), multi_p=0.3, lo=3, hi=60, mean=14):
     """The part of the swarm configuration shared by structure-driven runs."""
     cfg = {}
@@ -91,6 +98,13 @@ def std_struct_config(rng, *, kinds, always=(), multi_p=0.3, lo=3, hi=60, mean=1
     cfg["nu"] = rng.randint(0, 3)
     cfg["max_links"] = rng.choice([3, 6, 10])
     cfg["max_vertices"] = cfg["nv"] + rng.choice([0, 1, 2])
+    if deep_tier() and rng.random() < 0.25:
+        # thorough tier: a share of runs with deeper bounds
+        cfg["deep_bounds"] = True
+        cfg["steps"] = gen.geometric_steps(rng, hi // 2, hi * 3, mean * 4)
+        cfg["nv"] = rng.randint(5, 12)
+        cfg["max_links"] = rng.choice([10, 16, 24])
+        cfg["max_vertices"] = cfg["nv"] + rng.choice([0, 2, 4])
     cfg["p_alias"] = rng.choice([0.1, 0.3, 0.5, 0.8])
     cfg["p_none"] = rng.choice([0.0, 0.0, 0.05, 0.15])
     k = rng.randint(1, len(gen.EDGE_CLASSES))
